@@ -10,6 +10,8 @@ CONSTANTS
   SizeRotate = TRUE
   WalRemoveAnyOrder = FALSE
   RecFinishRenameFirst = FALSE
+  Async = FALSE
+  RotateDropsBuffer = FALSE
 INVARIANTS CrashSafe ReadsLikeMap
 PROPERTIES StepProperty
 CHECK_DEADLOCK FALSE
